@@ -1027,6 +1027,102 @@ func (g *c18Group) run() {
 	}
 }
 
+// c18QuotaOverRejecter: NewMaxSubscriptionsMiddleware(N) over NewMaxReqFiltersMiddleware(1) over
+// a handler that keeps the set of ids it has open (REQ opens or replaces, CLOSE closes). REQs
+// with one or two filters and CLOSEs over a small id alphabet; after every message a COUNT goes
+// through the whole stack and back, so the message has been dealt with when the open set is read.
+func c18QuotaOverRejecter(rep *vk.Report, i int) {
+	r := vk.RNG("C18/over", i)
+	n := 1 + r.IntN(3)
+	var mu sync.Mutex
+	open := map[string]bool{}
+	maxOpen, over := 0, ""
+	sink := mocrelay.HandlerFunc(func(ctx context.Context, send chan<- mocrelay.ServerMsg, recv <-chan mocrelay.ClientMsg) error {
+		for {
+			select {
+			case <-ctx.Done():
+				return ctx.Err()
+			case m, ok := <-recv:
+				if !ok {
+					return mocrelay.ErrRecvClosed
+				}
+				switch m := m.(type) {
+				case *mocrelay.ClientReqMsg:
+					mu.Lock()
+					open[m.SubscriptionID] = true
+					if len(open) > maxOpen {
+						maxOpen = len(open)
+					}
+					if len(open) > n && over == "" {
+						over = fmt.Sprintf("after REQ %q the handler has %d ids open", m.SubscriptionID, len(open))
+					}
+					mu.Unlock()
+				case *mocrelay.ClientCloseMsg:
+					mu.Lock()
+					delete(open, m.SubscriptionID)
+					mu.Unlock()
+				case *mocrelay.ClientCountMsg:
+					select {
+					case send <- mocrelay.NewServerCountMsg(m.SubscriptionID, 0, nil):
+					case <-ctx.Done():
+						return ctx.Err()
+					}
+				}
+			}
+		}
+	})
+	h := mocrelay.NewMaxSubscriptionsMiddleware(n)(mocrelay.NewMaxReqFiltersMiddleware(1)(sink))
+	s := vk.StartSession(context.Background(), h, 64)
+	defer s.Stop()
+	ids := []string{"a", "b", "c", "d", ""}[:2+r.IntN(4)]
+	var log []string
+	steps := 8 + r.IntN(30)
+	for k := 0; k < steps; k++ {
+		id := vk.Pick(r, ids)
+		var m mocrelay.ClientMsg
+		switch c := r.IntN(10); {
+		case c < 4:
+			m = &mocrelay.ClientReqMsg{SubscriptionID: id, ReqFilters: []*mocrelay.ReqFilter{{}}}
+			log = append(log, "REQ "+id+" (1 filter)")
+		case c < 7:
+			m = &mocrelay.ClientReqMsg{SubscriptionID: id, ReqFilters: []*mocrelay.ReqFilter{{}, {}}}
+			log = append(log, "REQ "+id+" (2 filters)")
+		default:
+			m = &mocrelay.ClientCloseMsg{SubscriptionID: id}
+			log = append(log, "CLOSE "+id)
+		}
+		bar := fmt.Sprintf("barrier-%d", k)
+		if !s.Put(m) || !s.Put(&mocrelay.ClientCountMsg{SubscriptionID: bar, ReqFilters: []*mocrelay.ReqFilter{{}}}) {
+			rep.Inconclusive("C18: quota-over-rejecter scenario: a message was not taken")
+			return
+		}
+		for {
+			sm, ok := s.Get()
+			if !ok {
+				rep.Inconclusive("C18: quota-over-rejecter scenario: the barrier COUNT was not answered")
+				return
+			}
+			if c, is := sm.(*mocrelay.ServerCountMsg); is && c.SubscriptionID == bar {
+				break
+			}
+		}
+		rep.Eval(1)
+		mu.Lock()
+		bad := over
+		mu.Unlock()
+		if bad != "" {
+			rep.Violation("quota/over-a-rejecting-component/too-many-open-downstream", fmt.Sprintf("quota %d above the filter-count limit: %s", n, bad), map[string]any{"quota": n, "client_messages": log})
+			return
+		}
+	}
+	rep.Count("quota_over_rejecter_sessions", 1)
+	mu.Lock()
+	if maxOpen == n {
+		rep.Count("quota_over_rejecter_sessions_that_filled_the_quota", 1)
+	}
+	mu.Unlock()
+}
+
 func TestVerif_C18(t *testing.T) {
 	rep := vk.NewReport(t, "C18", "exploration")
 	rep.Rule = "a case is one session: a sequential REQ/CLOSE/COUNT/EVENT script (10-80 messages) plus EVENTs sent by the recording downstream handler, over alphabets of 2-6 subscription ids and 2-6 event ids, run through one shared middleware value (quota N in 1..4 or MaxInt, receive window 1..4, send window 1..4, alone or stacked in random order) together with 1-5 other sessions using the same ids, sometimes followed by a second wave of sessions on the same value; each step's outcome (seen downstream / CLOSED / OK-false / delivered / suppressed; in half of the sessions the downstream handler answers three quarters of the EVENTs that reach it with a tagged OK, accepted or refused, with and without machine-readable prefix, which the client waits for before the next message and which the models ignore) is compared with the session's own open-set and last-size-distinct-ids models; plus one session that sends 400000/2000000 distinct ids through a receive window of 60000 (none may be called a duplicate); non-trivial = the session reached a quota or window boundary (a REQ that had to be refused, a repeat inside the window, or an id that had left the window); distinct = distinct (stack, per-step kind/id/outcome string)"
@@ -1061,6 +1157,16 @@ func TestVerif_C18(t *testing.T) {
 	if c18Stalls.Load() >= 3 {
 		rep.Inconclusive(fmt.Sprintf("C18: %d waits expired; remaining groups skipped", c18Stalls.Load()))
 	}
+	// the quota above a component that refuses some REQs itself (the provided filter-count limit):
+	// whatever is answered on the way, the handler at the bottom never has more than N
+	// subscription ids open
+	nOver := vk.N(400, 6000)
+	vk.Parallel(nOver, func(i int) {
+		if rep.Violations() < 3 {
+			c18QuotaOverRejecter(rep, i)
+		}
+	})
+	rep.Require(rep.Violations() > 0 || rep.Counter("quota_over_rejecter_sessions") >= int64(nOver*9/10), "quota over a rejecting component")
 	// a large window and very many distinct ids: none of them has been seen before, none may be
 	// answered as a duplicate (and every one reaches the handler)
 	{
